@@ -78,6 +78,35 @@ theorem reachB_sound {E : List Edge} {C : Label → Bool} :
         exact Reach.edge (l := e.label) he hc
       exact h1.trans h2
 
+theorem reachPass_sound {E : List Edge} {C : Label → Bool} {u : Node} :
+    ∀ (es : List Edge) (vis : List Node), (∀ e ∈ es, e ∈ E) → (∀ y ∈ vis, Reach E C u y) →
+      ∀ x ∈ reachPass C es vis, Reach E C u x := by
+  intro es
+  induction es with
+  | nil => intro vis _ hv x hx; exact hv x hx
+  | cons e rest ih =>
+    intro vis hsub hv x hx
+    simp only [reachPass] at hx
+    refine ih _ (fun e' he' => hsub e' (List.mem_cons_of_mem _ he')) ?_ x hx
+    intro y hy
+    split at hy
+    · rename_i hc
+      simp only [Bool.and_eq_true, List.contains_eq_mem, decide_eq_true_eq] at hc
+      rcases List.mem_cons.1 hy with rfl | hy
+      · exact .step (hv _ hc.1.2) (hsub e List.mem_cons_self) hc.1.1
+      · exact hv y hy
+    · exact hv y hy
+
+theorem reachFrom_sound {E : List Edge} {C : Label → Bool} {u x : Node} (h : x ∈ reachFrom E C u) :
+    Reach E C u x := by
+  unfold reachFrom at h
+  refine reachPass_sound E _ (fun _ h => h) ?_ x h
+  intro y hy
+  refine reachPass_sound E _ (fun _ h => h) ?_ y hy
+  intro z hz
+  simp only [List.mem_singleton] at hz
+  subst hz; exact .refl _
+
 /-! ### QMap -/
 
 @[simp] theorem QMap.get_set (m : QMap) (r x : Nat) (q : Queue) :
